@@ -48,8 +48,12 @@ SUBS = collections.OrderedDict([
     ('B.Mc', ('B', 'Mc', 'all', 20, True)),     # handler is a bound method of a helper object
 ])
 UNSUBS = [('A', 'Ma'), ('B', 'Mb')]
+PRESUB = ('A.Mb', 'A.Ma', 'B.Mb', 'B.Ma')      # start state of the '-presub' scenarios
 ACTIONS = [['bc', 'Mc'], ['bc', 'Mb'], ['dbc', 'Mb'], ['sub', 'B.Ma'], ['unsub', 'B', 'Mb'],
-           ['unsuball', 'B'], ['ddbc', 'Ma']]
+           ['unsuball', 'B'], ['ddbc', 'Ma'], ['unsuball', 'A'], ['ibc', 'Mb'], ['d']]
+# NOT in the alphabet: a handler dropping the last reference to another listener.  The hub holds the recipients
+# of the delivery in progress strongly, so the 'dead' listener stays subscribed until that delivery ends - when
+# exactly the weak reference dies is garbage-collector timing, which the property does not constrain.
 
 
 class Model(object):
@@ -241,6 +245,8 @@ def perform(side, act):
         side.broadcast(act[1])
     elif k == 'dbc':           # with hub.delay_callbacks(): hub.broadcast(X)
         _scoped_delay(side, lambda: side.broadcast(act[1]))
+    elif k == 'd':             # with hub.delay_callbacks(): pass
+        _scoped_delay(side, lambda: None)
     elif k == 'ddbc':          # nested delay blocks inside the handler
         _scoped_delay(side, lambda: _scoped_delay(side, lambda: side.broadcast(act[1])))
     elif k == 'sub':
@@ -249,6 +255,15 @@ def perform(side, act):
         side.unsubscribe(act[1], act[2])
     elif k == 'unsuball':
         side.unsubscribe_all(act[1])
+    elif k == 'kill':          # a handler drops the last reference to another listener
+        side.w.alive.discard(act[1])
+        side.kill(act[1])
+    elif k == 'ibc':           # with hub.ignore_callbacks(X): hub.broadcast(X)  -> dropped
+        side.enter_ign(act[1])
+        try:
+            side.broadcast(act[1])
+        finally:
+            side.exit_ign(act[1])
     else:
         raise core.EngineError('unknown action %r' % (act,))
 
@@ -284,7 +299,8 @@ class World(object):
 
 class Scenario(object):
 
-    def __init__(self, max_dev, max_ctx=3, ign_classes=('Mb',), actions=ACTIONS, kills=True):
+    def __init__(self, max_dev, max_ctx=3, ign_classes=('Mb',), actions=ACTIONS, kills=True, presub=()):
+        self.presub = presub
         self.max_dev = max_dev
         self.max_ctx = max_ctx
         self.ign_classes = ign_classes
@@ -292,7 +308,11 @@ class Scenario(object):
         self.kills = kills
 
     def new_world(self):
-        return World()
+        w = World()
+        for name in self.presub:       # start from a non-initial state: listeners already subscribed
+            w.model.subscribe(name)
+            w.real.subscribe(name)
+        return w
 
     def enabled(self, w):
         ops = []
@@ -432,9 +452,11 @@ class Scenario(object):
 
 def tiers(tier):
     if tier == 'quick':
-        return [('dev0', Scenario(0), 5), ('dev1', Scenario(1, max_ctx=2, kills=False), 5)]
-    return [('dev0', Scenario(0), 7), ('dev1', Scenario(1), 6),
-            ('dev2', Scenario(2, max_ctx=2, kills=False), 6)]
+        return [('dev0', Scenario(0), 6), ('dev1', Scenario(1, max_ctx=2), 5),
+                ('dev1-presub', Scenario(1, max_ctx=2, presub=PRESUB, kills=False), 5)]
+    return [('dev0', Scenario(0), 8), ('dev1', Scenario(1), 7),
+            ('dev2', Scenario(2, max_ctx=2, kills=False), 6),
+            ('dev2-presub', Scenario(2, max_ctx=2, presub=PRESUB, kills=False), 6)]
 
 
 def run(tier):
